@@ -54,6 +54,7 @@ fn main() {
         ("drive", "c05") => fam_text3::drive_c05(&a, &mut out),
         ("replay", "alg") => replay::replay_alg(&a, &mut out),
         ("replay", "inline") => replay::replay_inline(&a, &mut out),
+        ("replay", "fn") => replay::replay_fn(&a, &mut out),
         ("replay", "group") => replay::replay_group(&a, &mut out),
         ("replay", "compact") => replay::replay_compact(&a, &mut out),
         ("drive", "steps") => fam_a::drive_steps(&a, &mut out),
